@@ -487,6 +487,15 @@ def _task_ownership(ck, R5):
                     # the loop header counts: iterating an empty list cancels nothing to cancel
                     wit = wit or g.path_avoiding(d, [g.raise_exit], avoid=cancel_loops)
         ok = wit is None and bool(cancel_loops)
+        # inside that loop the cancel is unconditional or guarded by "not done" only
+        from sa.cfg import canon_fact as _cf5
+        for c in cancels:
+            rc = recv(node_calls(c, 'cancel')[0])
+            extra = {_cf5(e_, p_) for e_, p_ in g.guards(c)} - {_cf5(e_, p_) for l in cancel_loops
+                                                                 for e_, p_ in g.guards(l)}
+            allowed = {_cf5(ast.parse(f'{rc}.done()', mode='eval').body, False), ('True', True)}
+            if any(g.dominates(l, c) for l in cancel_loops) and not extra <= allowed:
+                ok = False
         for c in cancels:
             loops = [l for l in g.nodes if l.kind == 'for' and g.dominates(l, c)]
             ok = ok and bool(loops) and lp in norm(loops[-1].ast.iter) and 'sorted' not in norm(loops[-1].ast.iter)
